@@ -622,6 +622,83 @@ func scannerTokens(p *Program) ([]scanTok, error) {
 		return true
 	})
 	if len(out) < 30 {
+		// the same dispatch written as an if / else-if chain on a copy of the current character:
+		//   if c := ch; c == '=' || c == '!' { ... } else if c == '+' { ... } else { ... }
+		charsOf := func(cond ast.Expr) []string {
+			var chars []string
+			okAll := true
+			var split func(e ast.Expr)
+			split = func(e ast.Expr) {
+				switch x := e.(type) {
+				case *ast.ParenExpr:
+					split(x.X)
+				case *ast.BinaryExpr:
+					if x.Op == token.LOR {
+						split(x.X)
+						split(x.Y)
+						return
+					}
+					if x.Op == token.EQL {
+						if id, ok := x.X.(*ast.Ident); ok && isRuneVar(info, id) {
+							if ch, ok := charOf(x.Y); ok {
+								chars = append(chars, ch)
+								return
+							}
+						}
+						if id, ok := x.Y.(*ast.Ident); ok && isRuneVar(info, id) {
+							if ch, ok := charOf(x.X); ok {
+								chars = append(chars, ch)
+								return
+							}
+						}
+					}
+					okAll = false
+				default:
+					okAll = false
+				}
+			}
+			split(cond)
+			if !okAll {
+				return nil
+			}
+			return chars
+		}
+		best := 0
+		ast.Inspect(scan.Body, func(n ast.Node) bool {
+			is, ok := n.(*ast.IfStmt)
+			if !ok {
+				return true
+			}
+			// length of the chain whose every condition is a disjunction of character tests
+			k := 0
+			for cur := is; cur != nil; {
+				if charsOf(cur.Cond) == nil {
+					break
+				}
+				k++
+				next, _ := cur.Else.(*ast.IfStmt)
+				cur = next
+			}
+			if k > best && k >= 10 {
+				best = k
+				out = nil
+				for cur := is; cur != nil; {
+					chars := charsOf(cur.Cond)
+					if chars == nil {
+						break
+					}
+					for _, ch := range chars {
+						visit(cur.Body.List, ch)
+					}
+					next, _ := cur.Else.(*ast.IfStmt)
+					cur = next
+				}
+				return false
+			}
+			return true
+		})
+	}
+	if len(out) < 30 {
 		return nil, fmt.Errorf("only %d token assignments found in Scanner.Scan", len(out))
 	}
 	return out, nil
